@@ -6,6 +6,9 @@ package riscv64
 import "wa-lang.org/wa/internal/native/wemu/device"
 
 // 寄存器整数
+// 寄存器移位指令使用 rs2 的低 log2(XLEN) 位
+const shamtMask = 63
+
 type RVUInt = uint64
 
 var _ device.CPU = (*CPU)(nil)
